@@ -490,6 +490,9 @@ impl super::MainState {
             let mut set_modes_string = String::new();
             let mut unset_modes_string = String::new();
             let mut modes_params_string = String::new();
+            // announced "+l"/"+k" entries - only last applied state is announced
+            let mut limit_entry: Option<String> = None;
+            let mut key_entry: Option<String> = None;
 
             for (mchars, margs) in modes {
                 let mut margs_it = margs.iter();
@@ -855,11 +858,17 @@ impl super::MainState {
                         }
                         'l' => {
                             if if_half_op {
+                                // forget previous announced state of limit
+                                if let Some(e) = limit_entry.take() {
+                                    modes_params_string = modes_params_string.replacen(&e, "", 1);
+                                }
+                                unset_modes_string.retain(|c| c != 'l');
                                 chanobj.modes.client_limit = if mode_set {
                                     let arg = margs_it.next().unwrap();
                                     // put to applied modes
-                                    modes_params_string += " +l ";
-                                    modes_params_string += arg;
+                                    let entry = format!(" +l {}", arg);
+                                    modes_params_string += &entry;
+                                    limit_entry = Some(entry);
 
                                     Some(arg.parse::<usize>().unwrap())
                                 } else {
@@ -871,11 +880,17 @@ impl super::MainState {
                         }
                         'k' => {
                             if if_half_op {
+                                // forget previous announced state of key
+                                if let Some(e) = key_entry.take() {
+                                    modes_params_string = modes_params_string.replacen(&e, "", 1);
+                                }
+                                unset_modes_string.retain(|c| c != 'k');
                                 chanobj.modes.key = if mode_set {
                                     let arg = margs_it.next().unwrap();
                                     // put to applied modes
-                                    modes_params_string += " +k ";
-                                    modes_params_string += arg;
+                                    let entry = format!(" +k {}", arg);
+                                    modes_params_string += &entry;
+                                    key_entry = Some(entry);
 
                                     Some(arg.to_string())
                                 } else {
@@ -889,6 +904,9 @@ impl super::MainState {
                             if if_half_op {
                                 chanobj.modes.invite_only = mode_set;
                                 // put to applied modes
+                                // announce last applied state of flag
+                                set_modes_string.retain(|c| c != 'i');
+                                unset_modes_string.retain(|c| c != 'i');
                                 if mode_set {
                                     set_modes_string.push('i');
                                 } else {
@@ -900,6 +918,9 @@ impl super::MainState {
                             if if_half_op {
                                 chanobj.modes.moderated = mode_set;
                                 // put to applied modes
+                                // announce last applied state of flag
+                                set_modes_string.retain(|c| c != 'm');
+                                unset_modes_string.retain(|c| c != 'm');
                                 if mode_set {
                                     set_modes_string.push('m');
                                 } else {
@@ -911,6 +932,9 @@ impl super::MainState {
                             if if_half_op {
                                 chanobj.modes.protected_topic = mode_set;
                                 // put to applied modes
+                                // announce last applied state of flag
+                                set_modes_string.retain(|c| c != 't');
+                                unset_modes_string.retain(|c| c != 't');
                                 if mode_set {
                                     set_modes_string.push('t');
                                 } else {
@@ -922,6 +946,9 @@ impl super::MainState {
                             if if_half_op {
                                 chanobj.modes.no_external_messages = mode_set;
                                 // put to applied modes
+                                // announce last applied state of flag
+                                set_modes_string.retain(|c| c != 'n');
+                                unset_modes_string.retain(|c| c != 'n');
                                 if mode_set {
                                     set_modes_string.push('n');
                                 } else {
@@ -933,6 +960,9 @@ impl super::MainState {
                             if if_half_op {
                                 chanobj.modes.secret = mode_set;
                                 // put to applied modes
+                                // announce last applied state of flag
+                                set_modes_string.retain(|c| c != 's');
+                                unset_modes_string.retain(|c| c != 's');
                                 if mode_set {
                                     set_modes_string.push('s');
                                 } else {
